@@ -43,6 +43,21 @@ def run(ctx, tier, res, tag=''):
                               % (where, what, val, fmt, hl))
             else:
                 res.ok()
+        m = facts.get('verif_lenmacro_' + fmt)
+        if m:
+            res.count('length macros evaluated as an operand (macro hygiene)' + tag)
+            ctxs = [('7 * %s * 3', 'mul', 21 * m), ('1000000 / %s', 'div', 1000000 // m), ('1000003 %% %s', 'mod', 1000003 % m),
+                    ('1000 + - %s', 'neg', 1000 - m)]
+            bad = [(e % f['len_macro'], facts.get('verif_lenmacro_%s_%s' % (k, fmt)), want) for (e, k, want) in ctxs
+                   if facts.get('verif_lenmacro_%s_%s' % (k, fmt)) != want]
+            if bad:
+                e, got, want = bad[0]
+                res.violation('%s:layout:len-macro-operand%s' % (fmt, tag),
+                              '%s: %s evaluates to %s, but with the published length %d it must be %d: the macro does not '
+                              'expand to a parenthesised expression, so a buffer sized with it is too small'
+                              % (where, e, got, m, want))
+            else:
+                res.ok()
         if hl % 4:
             res.violation('%s:layout:quadlets' % fmt, 'spec header length %d of %s is not a whole number of quadlets' % (hl, fmt))
     res.sample({'layout_fact': 'sizeof(Avtp_Can_t) == offsetof(Avtp_Can_t, payload) == AVTP_CAN_HEADER_LEN == 16',
@@ -95,11 +110,12 @@ def run(ctx, tier, res, tag=''):
                           % (FC.fnloc(ctx, fname), ret, f['header_len']))
     res.rule = ('per function: read and write sets measured by the bit-provenance engine on a PDU region declared exactly '
                 'header_len octets long must stay inside it; per format: sizeof, header array bound, offsetof(payload) and '
-                'the length macro, as folded by the compiler, must equal the wire-format header length')
+                'the length macro, as folded by the compiler, must equal the wire-format header length - the macro also when it is '
+                'an operand of *, /, % and unary minus')
     return res
 
 
 def main(tier, seed):
-    from ..ctx import Ctx
+    from ..ctx import run_all_configs
     res = Result('C03', tier, 'proof', seed)
-    return run(Ctx('le'), tier, res)
+    return run_all_configs(run, tier, res)
